@@ -504,7 +504,7 @@ func (i *Interpreter) injectDependency(injection Injection, env *Environment) {
 // ExecuteRoute executes a route with the given request
 func (i *Interpreter) ExecuteRoute(route *Route, request *Request) (*Response, error) {
 	// Create a new environment for the route
-	routeEnv := NewChildEnvironment(i.globalEnv)
+	routeEnv := newEvaluationScope(i.globalEnv)
 
 	// Extract path parameters
 	var params map[string]string
@@ -767,7 +767,7 @@ func (i *Interpreter) ExecuteRoute(route *Route, request *Request) (*Response, e
 // ExecuteRouteSimple is a simplified version for testing
 func (i *Interpreter) ExecuteRouteSimple(route *Route, pathParams map[string]string) (interface{}, error) {
 	// Create a new environment for the route
-	routeEnv := NewChildEnvironment(i.globalEnv)
+	routeEnv := newEvaluationScope(i.globalEnv)
 
 	// Add path parameters to environment
 	for key, value := range pathParams {
@@ -911,7 +911,7 @@ func (i *Interpreter) GetContracts() map[string]ContractDef {
 // ExecuteCommand executes a CLI command with the given arguments
 func (i *Interpreter) ExecuteCommand(cmd *Command, args map[string]interface{}) (interface{}, error) {
 	// Create a new environment for the command
-	cmdEnv := NewChildEnvironment(i.globalEnv)
+	cmdEnv := newEvaluationScope(i.globalEnv)
 
 	// Add command arguments to environment
 	for _, param := range cmd.Params {
@@ -952,7 +952,7 @@ func (i *Interpreter) ExecuteCommand(cmd *Command, args map[string]interface{}) 
 // ExecuteCronTask executes a cron task
 func (i *Interpreter) ExecuteCronTask(task *CronTask) (interface{}, error) {
 	// Create a new environment for the task
-	taskEnv := NewChildEnvironment(i.globalEnv)
+	taskEnv := newEvaluationScope(i.globalEnv)
 
 	// Handle dependency injections
 	for _, injection := range task.Injections {
@@ -975,7 +975,7 @@ func (i *Interpreter) ExecuteCronTask(task *CronTask) (interface{}, error) {
 // ExecuteEventHandler executes an event handler with the given event data
 func (i *Interpreter) ExecuteEventHandler(handler *EventHandler, eventData interface{}) (interface{}, error) {
 	// Create a new environment for the handler
-	handlerEnv := NewChildEnvironment(i.globalEnv)
+	handlerEnv := newEvaluationScope(i.globalEnv)
 
 	// Add event data to environment
 	handlerEnv.Define("event", eventData)
@@ -1025,7 +1025,7 @@ func (i *Interpreter) EmitEvent(eventType string, eventData interface{}) error {
 // ExecuteQueueWorker executes a queue worker with the given message
 func (i *Interpreter) ExecuteQueueWorker(worker *QueueWorker, message interface{}) (interface{}, error) {
 	// Create a new environment for the worker
-	workerEnv := NewChildEnvironment(i.globalEnv)
+	workerEnv := newEvaluationScope(i.globalEnv)
 
 	// Add message to environment
 	workerEnv.Define("message", message)
@@ -1091,7 +1091,7 @@ func (i *Interpreter) ExecuteGRPCHandler(handler *GRPCHandler, args map[string]i
 		return nil, fmt.Errorf("handler is nil")
 	}
 
-	handlerEnv := NewChildEnvironment(i.globalEnv)
+	handlerEnv := newEvaluationScope(i.globalEnv)
 
 	for _, param := range handler.Params {
 		if val, ok := args[param.Name]; ok {
@@ -1135,7 +1135,7 @@ func (i *Interpreter) ExecuteGraphQLResolver(resolver *GraphQLResolver, args map
 		return nil, fmt.Errorf("resolver is nil")
 	}
 
-	resolverEnv := NewChildEnvironment(i.globalEnv)
+	resolverEnv := newEvaluationScope(i.globalEnv)
 
 	// Bind arguments matching resolver params
 	for _, param := range resolver.Params {
@@ -1204,7 +1204,7 @@ func (i *Interpreter) RunTests(filter string) []TestResult {
 
 func (i *Interpreter) runSingleTest(test TestBlock) TestResult {
 	start := time.Now()
-	testEnv := NewChildEnvironment(i.globalEnv)
+	testEnv := newEvaluationScope(i.globalEnv)
 
 	_, err := i.executeStatements(test.Body, testEnv)
 	duration := time.Since(start)
